@@ -164,6 +164,7 @@ func NewGen(seed int64, prop string, run int, thorough bool) *Gen {
 	cfg.ModuleService = g.useModSvcCalls || g.chance(0.25)
 	g.useHugeFreq = g.chance(prof.HugeFreq)
 	g.useModule = g.chance(prof.ModuleCtx)
+	g.rawResponders = prop != "C19" && g.chance(0.7)
 
 	// service names: a subset of the pool (prefix-related by construction)
 	n := 2 + g.pick(3)
